@@ -54,6 +54,9 @@ type runSpec struct {
 	Workers  int    `json:"workers"`
 	Final    uint64 `json:"final"` // recent final block known to tier1, 0 = unknown
 	JobOrder []int  `json:"job_order,omitempty"`
+	// TailLag > 0: the blocks above Final are not final when they arrive (step new); the irreversible signal of
+	// block n comes after block n+TailLag
+	TailLag uint64 `json:"tail_lag,omitempty"`
 }
 
 // snapshot of every store after a block.
@@ -77,9 +80,18 @@ type runOut struct {
 	last *storeSnap // stores after the last block processed by the tier1 pipeline
 }
 
+// chainFor is the block source of a run: a fork-free chain up to head, whose blocks above spec.Final arrive
+// non-final when spec.TailLag > 0.
+func chainFor(spec runSpec, head uint64) []world.Step {
+	if spec.TailLag > 0 && spec.Final > 0 {
+		return world.LinearChainLag(head, spec.Final, spec.TailLag)
+	}
+	return world.LinearChain(head)
+}
+
 func execute(p pgen.Prog, spec runSpec, seg uint64, head uint64, dir string, forbidJobs bool) runOut {
 	var out runOut
-	cfg := world.Config{Dir: dir, Seg: seg, Workers: spec.Workers, Final: spec.Final, Steps: world.LinearChain(head), JobOrder: spec.JobOrder}
+	cfg := world.Config{Dir: dir, Seg: seg, Workers: spec.Workers, Final: spec.Final, Steps: chainFor(spec, head), JobOrder: spec.JobOrder}
 	cfg.OnBlock = func(st world.Step, m store.Map) {
 		if m != nil {
 			out.last = snapStores(st.Num, m)
